@@ -231,6 +231,9 @@ func TestVerif_C11_loopwire(t *testing.T) {
 			s.Count("direct")
 		}
 		prevPs = ps
+		for _, b := range c11DegBuckets(ps) {
+			s.Count(b)
+		}
 		for _, p := range ps {
 			s.Count("pol:" + p.kind)
 		}
